@@ -192,6 +192,28 @@ def run_case(ck, desc):
                 ck.violation("interpolator-at-nodes", {"after": "recovery_factor(time=other report times)", "max_rel": float(np.max(np.abs(at5 - rf1))) / scale5, "len_q": len(q), "nt": nt}, desc)
             ck.count("interpolators_checked_after_recovery_with_time_argument")
 
+    # the SAME object asked again on the grid shifted by special constants - to where its previous run ended (a
+    # history simulated a piece at a time LOOKS like that), by the span twice, by minus the span: simulate() is a
+    # function of its arguments, so the re-used object gives what a fresh object gives on that shifted grid
+    if nt >= 2 and np.all(np.diff(t) >= 0):
+        span_ = float(t[-1] - t[0])
+        for shift_ in (span_, 2.0 * span_, -span_, float(t[-1])):
+            t_sh = t + shift_
+            used_, _, _, _, _, _ = _run(dict(desc, reused=False), t.copy())
+            fresh_, ev_f, rf_f, _, _, _ = _run(dict(desc, reused=False), t_sh.copy())
+            sim.SIM_EVENTS.clear()
+            try:
+                sim.simulate(used_, t_sh.copy(), None)
+                ev_u = sim.SIM_EVENTS.pop() if sim.SIM_EVENTS else None
+                with np.errstate(all="ignore"), warnings.catch_warnings():
+                    warnings.simplefilter("ignore")
+                    rf_u = np.array(used_.recovery_factor(), copy=True)
+            except Exception as e:  # noqa: BLE001
+                ck.violation("re-used-object-same-as-fresh-on-a-shifted-grid", {"shift": shift_, "raised": repr(e)[:160]}, desc)
+                continue
+            ck.count("re-used_objects_on_grids_starting_where_the_last_run_ended")
+            if ev_u is None or ev_f is None or not (np.array_equal(ev_u["pp"], ev_f["pp"], equal_nan=True) and np.array_equal(rf_u, rf_f, equal_nan=True)):
+                ck.violation("re-used-object-same-as-fresh-on-a-shifted-grid", {"shift": shift_, "first_stamp": float(t_sh[0]), "previous_run_ended_at": float(t[-1]), "max_abs_field_diff": float(np.nanmax(np.abs(ev_u["pp"] - ev_f["pp"]))) if ev_u is not None and ev_f is not None else None}, desc)
     # both kinds of recovery asked of one run, an interpolator handed out in between: every interpolator
     # reproduces the recovery returned LAST (by flux, then by density, and the other way round)
     if strictly and nt >= 3 and desc["cls"] == "single" and rfd1 is not None and np.all(np.isfinite(rfd1)):
